@@ -268,6 +268,11 @@ pub struct IoOp {
     /// debris next to the target, created before the call
     #[serde(default, skip_serializing_if = "Vec::is_empty")]
     pub litter: Vec<Litter>,
+    /// fault `callback_panic`: the renderer holds a `Shape::Command` layer whose callback panics at
+    /// its k-th invocation during *this* call (the caller's own code failing inside `to_file`; no
+    /// verdict for this call - later calls on the thread meet what it left behind)
+    #[serde(default, skip_serializing_if = "Option::is_none")]
+    pub cb_panic_at: Option<u32>,
     /// the process's current directory during the call: 0 = the run directory, 1 = its
     /// sub-directory `cwd-b` (single-caller runs only; relative destinations follow it)
     #[serde(default, skip_serializing_if = "is_zero_u8")]
@@ -685,9 +690,20 @@ pub fn gen_run(verif_seed: u64, index: u64) -> IoRun {
             pad_to,
             rlimit,
             litter: Vec::new(),
+            cb_panic_at: None,
             cwd: 0,
             crash_at: None,
         };
+        if !sw.fault_free && !op.target.kernel_fault() && op.pad_to.is_none() && rng.chance(1, 30) {
+            // the caller's custom shape fails part-way through this export
+            op.setters.push(RSetter::Shape(ShapeSpec(SHAPE_PANICKY)));
+            op.cb_panic_at = Some(match rng.below(3) {
+                0 => rng.below(4) as u32,
+                1 => rng.below(60) as u32,
+                _ => rng.below(400) as u32,
+            });
+            op.plan = PlanSpec::default();
+        }
         if matches!(op.target, Target::Relative(_)) && rng.chance(1, 3) {
             // another working directory, or (real-kernel fault) one that has been removed
             op.cwd = if sw.real_kernel && rng.chance(1, 3) { 2 } else { 1 };
@@ -695,10 +711,15 @@ pub fn gen_run(verif_seed: u64, index: u64) -> IoRun {
         // related operations: the same export again, or a close relative of an earlier one
         // (what a watch loop, a batch job or a retry does) - where memos and caches live
         if sw.related && !ops.is_empty() && rng.chance(2, 5) {
-            let base = ops[rng.usize_below(ops.len())].clone();
+            // mostly the operation right before (caches of "the last export" look at that one)
+            let base = if rng.chance(2, 3) { ops[ops.len() - 1].clone() } else { ops[rng.usize_below(ops.len())].clone() };
             let fresh = op.clone();
             op = base;
             op.crash_at = None;
+            if op.cb_panic_at.take().is_some() {
+                // the same renderer without the failing callback
+                op.setters.retain(|s| !matches!(s, RSetter::Shape(ShapeSpec(SHAPE_PANICKY))));
+            }
             op.plan = fresh.plan.clone();
             op.rlimit = None;
             op.pre = match rng.weighted(&[30, 18, 15, 10, 10, 10, 12]) {
@@ -712,14 +733,19 @@ pub fn gen_run(verif_seed: u64, index: u64) -> IoRun {
             };
             match rng.below(8) {
                 // exactly the same export again
-                0 | 1 | 2 => {}
+                0 | 1 => {}
                 // one option differs
-                3 => {
+                2 | 3 => {
                     let is_img = op.kind == Kind::Png;
                     let extra = if is_img {
-                        match rng.below(3) {
-                            0 => RSetter::FitWidth(*rng.pick(&[33u32, 64, 100, 200, 256])),
-                            1 => RSetter::FitHeight(*rng.pick(&[33u32, 64, 100, 200, 256])),
+                        let used: Vec<u32> = op.setters.iter().filter_map(|s| match s {
+                            RSetter::FitWidth(v) | RSetter::FitHeight(v) => Some(*v),
+                            _ => None,
+                        }).collect();
+                        let cands: Vec<u32> = [33u32, 64, 100, 150, 200, 256].iter().copied().filter(|v| !used.contains(v)).collect();
+                        match rng.below(4) {
+                            0 | 1 => RSetter::FitWidth(*rng.pick(&cands)),
+                            2 => RSetter::FitHeight(*rng.pick(&cands)),
                             _ => RSetter::Margin(rng.below(6) as usize),
                         }
                     } else {
@@ -1384,6 +1410,8 @@ pub fn exec_op(dir: &Path, idx: usize, op: &IoOp, stats: &mut Stats, pre: Option
     let limit = op.rlimit.as_ref().map(|p| p.resolve(expected.len() as u64));
     let saved_limit = if limit.is_some() { set_fsize_limit(limit) } else { None };
     shim::arm(plan);
+    CB_CALLS.with(|c| c.set(0));
+    CB_PANIC_AT.with(|c| c.set(if pre.is_none() { op.cb_panic_at } else { None }));
     let outcome = catch_unwind(AssertUnwindSafe(|| -> Result<(), String> {
         match (op.kind, op.via_convert) {
             (Kind::Svg, false) => svg_b.as_ref().unwrap().to_file(&qr, &path).map_err(|e| format!("{:?}", e)),
@@ -1392,6 +1420,7 @@ pub fn exec_op(dir: &Path, idx: usize, op: &IoOp, stats: &mut Stats, pre: Option
             (Kind::Png, true) => call_via_convert_png(img_b.as_ref().unwrap(), &qr, &path).map_err(|e| format!("{:?}", e)),
         }
     }));
+    CB_PANIC_AT.with(|c| c.set(None));
     let delivered = shim::disarm();
     if let Some(old) = saved_limit {
         restore_fsize_limit(old);
@@ -1426,8 +1455,8 @@ pub fn exec_op(dir: &Path, idx: usize, op: &IoOp, stats: &mut Stats, pre: Option
     match &outcome {
         Err(p) if p.downcast_ref::<crate::SimCrash>().is_some() => {
             // the simulator itself killed this caller mid-call (concurrent-caller runs): no verdict
-            rep.result = "Died(injected)".into();
-            stats.bump("fired:caller_killed_mid_call", 1);
+            rep.result = "Died(caller's callback panicked)".into();
+            stats.bump("fired:callback_panic_inside_to_file", 1);
         }
         Err(p) => {
             let msg = panic_message(p.as_ref());
